@@ -148,6 +148,9 @@ fn damage(t: &mut Tape, toks: &[Tok], table: &[OpSpec], tk: TableKind) -> Damage
             let ill = ILLEGAL.contains(&a.text.as_str()) || ILLEGAL.contains(&tk_.text.as_str());
             if glue_last && i + 1 == toks.len() {
                 // no space
+            } else if ill && glue_illegal && a.text != "3.4." && tk_.text != "3.4." {
+                // glued: also an illegal alphanumeric character directly behind or in front of an
+                // identifier (`xé`, `٣x`) - the documented identifier pattern does not contain it
             } else if must_space(a, tk_, table)
                 || (ill && !glue_illegal)
                 || (ill && (a.text == "3.4." || tk_.text == "3.4."))
